@@ -77,7 +77,20 @@ def mk_history(rng, T, served):
         else:
             ops.append(['connect', T, ns, None])
     end = rng.choice(['lose', 'lose', 'cclose', 'cdisc_all_lose',
-                      'sdisc_all_lose'])
+                      'sdisc_all_lose', 'silent_then_sdisc',
+                      'silent_then_emit'])
+    if end in ('silent_then_sdisc', 'silent_then_emit'):
+        # the client went away silently long ago: the next send to it (the
+        # DISCONNECT of a server-side disconnect, or an emit) is what finds
+        # the transport dead, from inside that send
+        ops.append(['stale', T])
+        ns0 = rng.choice(nss)
+        if end == 'silent_then_sdisc':
+            ops.append(['sdisc', ['sid', T, ns0], ns0])
+        else:
+            ops.append(['emit', t(), ['sid', T, ns0], None, ns0, None])
+        ops.append(['lose', T])
+        return ops, nss, end
     if end == 'cdisc_all_lose':
         for ns in nss:
             ops.append(['cdisc', T, ns])
